@@ -2,7 +2,7 @@
 (* Stage B for C13 / C04: the property predicates on what is observable in a recorded execution of the real     *)
 (* dispatcher: the field-by-field snapshots of the server Config and of the shared default Config at every        *)
 (* event, the form of each reply against its own request, the execution counters of the registered callables.     *)
-EXTENDS Naturals, Sequences, FiniteSets, TLC, Json, IOUtils
+EXTENDS Naturals, Integers, Sequences, FiniteSets, TLC, Json, IOUtils
 Traces == JsonDeserialize(IOEnv.TRACE_FILE)
 VARIABLES tid, l
 T == Traces[tid]
@@ -21,6 +21,11 @@ WantForm(h) == IF K(h).valid /\ K(h).notif THEN "none"
 Form == E.k = "ret" => (E.val = WantForm(E.h) \/ (~K(E.h).valid /\ E.val \in {"1", "2"}))
 \* C04: never answered, executed at most once at any time and exactly once when everything has drained
 NotifNeverAnswered == (E.k = "ret" /\ K(E.h).valid /\ K(E.h).notif) => E.val = "none"
+\* C02 under concurrency: the dispatcher never raises and every request terminates, whatever is served meanwhile
+NoRaiseConc == E.k = "ret" => E.val # "raised"
+TerminatesConc == l = N => T.end # "deadlock"
+\* C03 under concurrency: the reply to a call carries the id of that very call, whatever is served meanwhile
+OwnId == E.k = "ret" => E.obj # -1
 AtMostOnce == \A h \in 1..NH : E.st.execs[h] <= 1
 AtEnd == l = N /\ T.end = "done" /\ N > 0
 ExactlyOnceWhenDrained == AtEnd => \A h \in 1..NH : E.st.execs[h] = (IF K(h).valid THEN 1 ELSE 0)
@@ -29,6 +34,9 @@ Monitor == l = 0 \/
            /\ ConfigUntouched \/ Flag("ConfigUntouched")
            /\ Form \/ Flag("Form")
            /\ NotifNeverAnswered \/ Flag("NotifNeverAnswered")
+           /\ OwnId \/ Flag("OwnId")
+           /\ NoRaiseConc \/ Flag("NoRaiseConc")
+           /\ TerminatesConc \/ Flag("TerminatesConc")
            /\ AtMostOnce \/ Flag("AtMostOnce")
            /\ ExactlyOnceWhenDrained \/ Flag("ExactlyOnceWhenDrained")
 =============================================================================
